@@ -37,14 +37,47 @@ def analyse(pid, tier, root, evidence_dir=None, quiet=True, model=None):
 
 def run_property(pid, tier, root, evidence_dir=None, replay_key=None, quiet=False):
     mod = importlib.import_module(f'rules.{pid.lower()}')
+    rep = Report(pid, tier, root, evidence_dir=evidence_dir, quiet=quiet)   # wall clock includes parsing
     model = Model(root)
-    rep = Report(pid, tier, root, evidence_dir=evidence_dir, quiet=quiet)
     rep.unit('modules_parsed', len(model.modules))
     rep.unit('classes_in_model', len(model.classes))
     rep.unit('functions_in_model', len(model.functions))
     rep.extra_coverage['tree_digest'] = model.digest()
     mod.run(model, rep, tier)
-    return rep.finish(only_key=replay_key)
+    shortfall = False
+    if tier == 'thorough' and replay_key is None:
+        shortfall = thorough_selftest(pid, root, rep)
+    rc = rep.finish(only_key=replay_key)
+    if rc == 0 and shortfall:
+        print(f'ANALYSIS-ERROR property={pid}: self-test shortfall (a seeded fault was missed or a benign twin fired); the verdict of the rules on the tree above is unaffected')
+        return 2
+    return rc
+
+
+def thorough_selftest(pid, root, rep):
+    """Thorough tier: run the seeded-fault / benign-twin slice of this property against scratch copies of the
+    tree under test (only the checker runs, never nutils) and record the tallies in the evidence."""
+    from selftest import run as st
+    import io
+    import contextlib
+    import tempfile
+    out = tempfile.NamedTemporaryFile(prefix='verif-selftest-', suffix='.json', delete=False)
+    out.close()
+    buf = io.StringIO()
+    with contextlib.redirect_stdout(buf):
+        rc = st.main(['--property', pid, '--root', root, '--json', out.name, '--jobs', str(min(16, os.cpu_count() or 1))])
+    try:
+        with open(out.name) as f:
+            tally = json.load(f)
+    finally:
+        os.unlink(out.name)
+    rep.extra_coverage['selftest'] = {k: tally.get(k) for k in ('faults_seeded', 'faults_detected', 'benign_total', 'benign_silent', 'inapplicable', 'wall_s')}
+    rep.extra_coverage['selftest']['problems'] = tally.get('problems', [])
+    print(f"{pid} self-test: {tally.get('faults_detected')}/{tally.get('faults_seeded')} seeded faults detected, "
+          f"{tally.get('benign_silent')}/{tally.get('benign_total')} benign twins silent, {tally.get('inapplicable')} inapplicable")
+    for ln in tally.get('problems', []):
+        print('  SELFTEST-SHORTFALL ' + ln)
+    return bool(tally.get('problems'))
 
 
 def main(argv=None):
